@@ -70,6 +70,11 @@ class CNeed(Exception):
         super().__init__(a, b)
 
 
+class CRuntime(RuntimeError):
+    def __init__(self, a, b):
+        super().__init__(a, b)
+
+
 class CChained(CPlain):
     pass
 
@@ -123,7 +128,7 @@ SITE_FROM = _site(_raise_from)
 SITE_PRE = _site(_raise_pre)
 SITE_FRESH = _site(_raise_fresh)
 
-SRE_CLASSES = ['plain', 'need', 'chained', 'pre', 'base']
+SRE_CLASSES = ['plain', 'need', 'chained', 'pre', 'base', 'runtime', 'notimpl']
 ORIG_MSG = 'orig-exc'
 
 
@@ -139,6 +144,10 @@ def make_exc(cls, msg=ORIG_MSG):
         return CBase(msg), SITE_ORIG
     if cls == 'valueerror':
         return ValueError('x'), SITE_ORIG
+    if cls == 'runtime':           # the helpers raise RuntimeError themselves when misused: a captured one is still
+        return CRuntime(msg, 7), SITE_ORIG          # an ordinary exception to be re-raised
+    if cls == 'notimpl':
+        return NotImplementedError(msg), SITE_ORIG
     if cls == 'key':
         return KeyError(msg), SITE_ORIG
     if cls == 'assertion':
@@ -915,7 +924,7 @@ def run(ctx):
         for body in bodies:
             n += 1
             for rr in (True, False):
-                for cls in (('plain', 'need', SRE_CLASSES[2 + (n + rr) % 3]) if rotate
+                for cls in (('plain', 'need', SRE_CLASSES[2 + (n + rr) % 5]) if rotate
                             else SRE_CLASSES):
                     idx += 1
                     if idx % ctx.nshards == ctx.shard:
